@@ -63,6 +63,19 @@ LAMMPS_SI = {
 }
 
 
+# electrical entries (LAMMPS `units` documentation): charge, dipole, electric field
+_C0 = 299792458.0
+LAMMPS_SI_ELECTRICAL = {
+    'real': {'charge': E, 'dipole': E * 1e-10, 'electric field': 1e10},
+    'metal': {'charge': E, 'dipole': E * 1e-10, 'electric field': 1e10},
+    'si': {'charge': 1.0, 'dipole': 1.0, 'electric field': 1.0},
+    'cgs': {'charge': 1 / (10 * _C0), 'dipole': 1 / (10 * _C0) * 1e-2, 'electric field': _C0 * 1e-6 / 1e-2},      # statcoulomb, statcoulomb-cm, statvolt/cm
+    'electron': {'charge': E, 'dipole': 1e-21 / _C0, 'electric field': 100.0},                                      # e, Debye, V/cm
+    'micro': {'charge': 1e-12, 'dipole': 1e-12 * 1e-6, 'electric field': 1e6},                                      # picocoulomb, pC-micrometre, V/micrometre
+    'nano': {'charge': E, 'dipole': E * 1e-9, 'electric field': 1e9},
+}
+
+
 class UnknownUnit(Exception):
     pass
 
